@@ -223,3 +223,231 @@ Print Assumptions C05_mem_v1_except_known.
 End MemPart.
 (* non-vacuity examples and the v1 refutations: C05/MemProps.v (compiled with this file) *)
 From TM Require C05.MemProps.
+
+(* ============================================================================================
+   Part A, continued — the WHOLE saved state and the WHOLE saved responses (C05/ModelState.v,
+   C05/ProofsState.v).  [F : fullsem] supplies everything Model.v abstracts from: an arbitrary
+   type [FSt F] for sm.State with updateState as an arbitrary function [upd F : state -> block ->
+   responses -> state], state.AppHash = h as [set_hash F], the state changes of the InitChain
+   branch as [upd_init F], and arbitrary payloads in the BeginBlock / DeliverTx / EndBlock
+   responses of the deterministic application.  [xreach A F ops] = (world, extension) after the
+   operations [ops]; [x_st] is the saved state, [x_resp] the last saved responses, [x_acc] the
+   responses the running ApplyBlock has built. *)
+From TM Require Import C05.ModelState C05.ProofsState.
+
+(* the extended run projects onto the run of Model.v, which the correspondence check executes
+   against the Go code on every run *)
+Theorem C05_full_model_refines : forall A F ops, fst (xreach A F ops) = reach A ops.
+Proof. exact xreach_fst. Qed.
+Print Assumptions C05_full_model_refines.
+
+(* clause 5 for the whole state.  For EVERY history (decisions, persistence steps, crashes at any
+   point - also during the handshake, repeatedly -, restarts, application restores), every
+   deterministic application and every updateState that does not read the BeginBlock response
+   ([replay_faithful F]: that, or a mock application that replays the saved BeginBlock response
+   too, which consensus/replay_stubs.go does not do - see C05_responses_saved_exact_refuted):
+   whenever the node is up between heights, its saved state - as an element of [FSt F]:
+   validators, parameters, results hash and all - is the saved state of a node that decided the
+   same blocks and never crashed (one start, then only decisions and completed steps). *)
+Theorem C05_state_equals_crash_free : forall A F, replay_faithful F -> init_idempotent F ->
+  forall ops, w_pc (fst (xreach A F ops)) = PIdle ->
+  exists ops', crash_free ops' /\ w_pc (fst (xreach A F ops')) = PIdle /\
+    w_store (fst (xreach A F ops')) = w_store (fst (xreach A F ops)) /\
+    x_st (snd (xreach A F ops)) = x_st (snd (xreach A F ops')).
+Proof. exact state_equals_crash_free. Qed.
+Print Assumptions C05_state_equals_crash_free.
+
+(* ... and that state is the fold of updateState / AppHash assignment over the stored blocks with
+   the responses of the application's execution of each block ([gref_chain], ModelState.v) *)
+Theorem C05_state_is_fold_of_updates : forall A F, replay_faithful F -> init_idempotent F ->
+  forall ops, w_pc (fst (xreach A F ops)) = PIdle ->
+  x_st (snd (xreach A F ops)) = gref_chain A F (w_store (fst (xreach A F ops))).
+Proof. exact state_when_up. Qed.
+Print Assumptions C05_state_is_fold_of_updates.
+
+(* at EVERY moment (mid-procedure, crashed, mid-handshake) the saved state is the untouched
+   genesis state or the crash-free state of the first n stored blocks, n = the saved height *)
+Theorem C05_state_crash_free_at_every_moment : forall A F, replay_faithful F -> init_idempotent F ->
+  forall ops,
+  let w := fst (xreach A F ops) in let e := snd (xreach A F ops) in
+  (w_state w = genesis_state /\ x_st e = st0 F) \/
+  exists n, (n <= length (w_store w))%nat /\ s_height (w_state w) = Z.of_nat n /\
+            x_st e = gref_chain A F (firstn n (w_store w)).
+Proof. exact state_always_crash_free. Qed.
+Print Assumptions C05_state_crash_free_at_every_moment.
+
+(* the saved ABCI responses, at every moment: they are for a stored block h = i+1, and their
+   DeliverTx responses (codes and payloads) and their EndBlock response are those the
+   application gives when it executes that block on top of its commit i ([racc A S i] is its
+   state after the first i blocks; it is deterministic, so these are the responses of every
+   execution of the block).  The BeginBlock response is the application's, or - after the
+   handshake completed the block on the mock application, which re-saves what it replayed - the
+   default response of abci.BaseApplication ([bp0 F]).  Their codes are Model.v's [w_resp]. *)
+Theorem C05_responses_saved_match_applied : forall A F, replay_faithful F -> init_idempotent F ->
+  forall ops h r,
+  let w := fst (xreach A F ops) in
+  x_resp (snd (xreach A F ops)) = Some (h, r) ->
+  exists i b, nth_error (w_store w) i = Some b /\ h = b_height b /\ h = Z.of_nat i + 1 /\
+    f_delivers r = f_delivers (gexec_resp A F (racc A (w_store w) i) b) /\
+    f_end r = f_end (gexec_resp A F (racc A (w_store w) i) b) /\
+    (f_begin r = f_begin (gexec_resp A F (racc A (w_store w) i) b) \/
+     (mock_keeps_begin F = false /\ f_begin r = bp0 F)) /\
+    w_resp w = Some (h, map fst (f_delivers r)).
+Proof. exact responses_saved. Qed.
+Print Assumptions C05_responses_saved_match_applied.
+
+(* with a mock application that also replays the saved BeginBlock response (the repair proposed
+   in fixes/F74-mock-replay-keeps-begin-block-response.diff) the saved responses are, at every
+   moment, exactly the application's responses for that block *)
+Theorem C05_responses_saved_exact_after_repair : forall A F, replay_faithful F -> init_idempotent F ->
+  mock_keeps_begin F = true -> forall ops h r,
+  let w := fst (xreach A F ops) in
+  x_resp (snd (xreach A F ops)) = Some (h, r) ->
+  exists i b, nth_error (w_store w) i = Some b /\ h = b_height b /\ h = Z.of_nat i + 1 /\
+    r = gexec_resp A F (racc A (w_store w) i) b.
+Proof. exact responses_saved_exact. Qed.
+Print Assumptions C05_responses_saved_exact_after_repair.
+
+(* responses are saved before the state: when a state Save is the next persistence operation
+   (ApplyBlock of finalizeCommit, of the handshake's replayBlock on the real or on the mock
+   application), the responses updateState was called with are exactly the saved ones, the state
+   it was called on is the crash-free state of the preceding height, and DeliverTx / EndBlock
+   responses are the application's for that block *)
+Theorem C05_state_update_uses_saved_responses : forall A F, replay_faithful F -> init_idempotent F ->
+  forall ops k b codes h,
+  let w := fst (xreach A F ops) in let e := snd (xreach A F ops) in
+  w_pc w = PSaveState k b codes h ->
+  x_resp e = Some (b_height b, x_acc e) /\
+  exists i, nth_error (w_store w) i = Some b /\ s_height (w_state w) = Z.of_nat i /\
+    x_st e = gref_chain A F (firstn i (w_store w)) /\
+    f_delivers (x_acc e) = f_delivers (gexec_resp A F (racc A (w_store w) i) b) /\
+    f_end (x_acc e) = f_end (gexec_resp A F (racc A (w_store w) i) b).
+Proof. exact state_update_uses_saved. Qed.
+Print Assumptions C05_state_update_uses_saved_responses.
+
+(* the free instance: let the "state" be the log of all (block, DeliverTx responses, EndBlock
+   response) triples with which updateState was called and saved.  After any history, when the
+   node is up, the log is the stored chain: every block exactly once, in order, each with the
+   responses of its execution - no hypothesis on F. *)
+Theorem C05_applied_sequence_once_in_order : forall A F ops,
+  w_pc (fst (xreach A (history_sem F) ops)) = PIdle ->
+  x_st (snd (xreach A (history_sem F) ops)) =
+  applied_from A F (ainit A) (w_store (fst (xreach A (history_sem F) ops))).
+Proof. exact applied_once_in_order. Qed.
+Print Assumptions C05_applied_sequence_once_in_order.
+
+(* --- non-vacuity and sharpness ------------------------------------------------------------- *)
+
+Definition efull : fullsem :=
+  {| BPay := N; DPay := N; EPay := N;
+     pbegin := fun a _ => (a + 1)%N;                       (* never 0, the mock's default *)
+     pdeliver := fun a t => (a * 2 + t)%N;
+     pend := fun a b => (a + Z.to_N (b_height b))%N;
+     bp0 := 0%N; ep0 := 0%N; mock_keeps_begin := false;
+     FSt := list (Z * list (N * N) * N) * Z;
+     upd := fun st b r => (fst st ++ [(b_height b, f_delivers r, f_end r)], EMPTY);
+     set_hash := fun st h => (fst st, h);
+     upd_init := fun st h => (fst st, h);
+     st0 := ([], EMPTY) |}.
+
+Example C05_efull_hypotheses : replay_faithful efull /\ init_idempotent efull.
+Proof.
+  split.
+  - left. intros st b r r' H1 H2. cbn in *. rewrite H1, H2. reflexivity.
+  - intros st h. reflexivity.
+Qed.
+
+(* ops1 (above): crash after the application committed block 2 and before the state was saved;
+   the handshake rebuilds the state from the SAVED responses on the mock application *)
+Definition ops1_crash_free := boot ++ full [5%N; 6%N] ++ full [1%N] ++ full [].
+Example C05_state_nonvacuous :
+  w_pc (fst (xreach eapp efull ops1)) = PIdle /\
+  crash_free ops1_crash_free /\
+  w_store (fst (xreach eapp efull ops1_crash_free)) = w_store (fst (xreach eapp efull ops1)) /\
+  x_st (snd (xreach eapp efull ops1)) = x_st (snd (xreach eapp efull ops1_crash_free)) /\
+  x_st (snd (xreach eapp efull ops1)) =
+    ([(1, [(1%N, 21%N); (0%N, 32%N)], 20%N); (2, [(1%N, 43%N)], 24%N); (3, [], 28%N)], 25).
+Proof.
+  split; [vm_compute; reflexivity|]. split.
+  - exists (tl ops1_crash_free). split; vm_compute; reflexivity.
+  - vm_compute. auto.
+Qed.
+
+(* the same with a second crash during the recovery and an application restore (ops2) *)
+Example C05_state_nonvacuous_restore :
+  w_pc (fst (xreach eapp efull ops2)) = PIdle /\
+  x_st (snd (xreach eapp efull ops2)) =
+  x_st (snd (xreach eapp efull (boot ++ full [5%N; 6%N] ++ full [1%N]))).
+Proof. vm_compute. auto. Qed.
+
+(* right after the mock replay of block 2 the saved responses carry the mock's BeginBlock
+   response (0), not the application's (here 19+1 = 20): the second alternative of
+   C05_responses_saved_match_applied really occurs *)
+Definition ops1_recovered := boot ++ full [5%N; 6%N] ++ [MCommit [1%N]] ++ repeat MStep 7
+                             ++ [MCrash; MRestart] ++ repeat MStep 2.
+Example C05_responses_nonvacuous :
+  w_pc (fst (xreach eapp efull ops1_recovered)) = PIdle /\
+  x_resp (snd (xreach eapp efull ops1_recovered)) =
+    Some (2, {| f_begin := 0%N; f_delivers := [(1%N, 43%N)]; f_end := 24%N |}) /\
+  x_resp (snd (xreach eapp efull (boot ++ full [5%N; 6%N] ++ full [1%N]))) =
+    Some (2, {| f_begin := 20%N; f_delivers := [(1%N, 43%N)]; f_end := 24%N |}).
+Proof. vm_compute. auto. Qed.
+
+Example C05_state_update_nonvacuous :
+  exists k b codes h,
+    w_pc (fst (xreach eapp efull (boot ++ full [5%N; 6%N] ++ [MCommit [1%N]] ++ repeat MStep 7
+                                  ++ [MCrash; MRestart; MStep]))) = PSaveState k b codes h /\
+    k = KMock 22 /\ b_height b = 2.
+Proof. do 4 eexists. vm_compute. auto. Qed.
+
+(* sharpness: the hypothesis "updateState does not read the BeginBlock response" is needed.  With
+   an updateState that records it, the state rebuilt through the mock application differs from
+   the crash-free one (the Go updateState does not read it: state/execution.go). *)
+Definition ebegin (keeps : bool) : fullsem :=
+  {| BPay := N; DPay := unit; EPay := unit;
+     pbegin := fun _ _ => 1%N; pdeliver := fun _ _ => tt; pend := fun _ _ => tt;
+     bp0 := 0%N; ep0 := tt; mock_keeps_begin := keeps;
+     FSt := list N;
+     upd := fun st _ r => st ++ [f_begin r];
+     set_hash := fun st _ => st; upd_init := fun st _ => st; st0 := [] |}.
+
+Theorem C05_state_without_begin_irrelevance_refuted :
+  exists A F ops ops', init_idempotent F /\
+    w_pc (fst (xreach A F ops)) = PIdle /\ crash_free ops' /\ w_pc (fst (xreach A F ops')) = PIdle /\
+    w_store (fst (xreach A F ops')) = w_store (fst (xreach A F ops)) /\
+    x_st (snd (xreach A F ops)) <> x_st (snd (xreach A F ops')).
+Proof.
+  exists eapp, (ebegin false), ops1, ops1_crash_free. split; [intros st h; reflexivity|].
+  split; [vm_compute; reflexivity|]. split.
+  - exists (tl ops1_crash_free). split; vm_compute; reflexivity.
+  - split; [vm_compute; reflexivity|]. split; [vm_compute; reflexivity|]. vm_compute. discriminate.
+Qed.
+Print Assumptions C05_state_without_begin_irrelevance_refuted.
+
+(* the same updateState with the repaired mock application: the states agree *)
+Example C05_state_nonvacuous_repaired_mock :
+  replay_faithful (ebegin true) /\
+  x_st (snd (xreach eapp (ebegin true) ops1)) = x_st (snd (xreach eapp (ebegin true) ops1_crash_free)) /\
+  x_st (snd (xreach eapp (ebegin true) ops1)) = [1%N; 1%N; 1%N].
+Proof. split; [right; reflexivity|]. vm_compute. auto. Qed.
+
+(* REFUTED for the code as it is: "the saved ABCI responses are the ones the application gave".
+   After a crash between the application's Commit and the state Save the handshake completes the
+   block on the mock application and ApplyBlock saves the replayed responses again: DeliverTx and
+   EndBlock responses are the saved (original) ones, the BeginBlock response is the default of
+   abci.BaseApplication - its events are lost from the responses stored for that height
+   (/block_results) and from the NewBlock events published by the recovery.  Replayed on the
+   real code: see the report / fixes/F74. *)
+Theorem C05_responses_saved_exact_refuted :
+  exists A F ops h r i b, replay_faithful F /\ init_idempotent F /\
+    w_pc (fst (xreach A F ops)) = PIdle /\
+    x_resp (snd (xreach A F ops)) = Some (h, r) /\
+    nth_error (w_store (fst (xreach A F ops))) i = Some b /\ h = Z.of_nat i + 1 /\
+    f_begin r <> f_begin (gexec_resp A F (racc A (w_store (fst (xreach A F ops))) i) b).
+Proof.
+  exists eapp, efull, ops1_recovered, 2. eexists. exists 1%nat. eexists.
+  split; [exact (proj1 C05_efull_hypotheses)|]. split; [exact (proj2 C05_efull_hypotheses)|].
+  split; [vm_compute; reflexivity|]. split; [vm_compute; reflexivity|].
+  split; [vm_compute; reflexivity|]. split; [reflexivity|]. vm_compute. discriminate.
+Qed.
+Print Assumptions C05_responses_saved_exact_refuted.
